@@ -246,6 +246,14 @@ pub fn gen_case_sized(c: &mut Chooser, op: &str, prop: &str, small: bool) -> Cas
     if credit {
         allow_late = false;
     }
+    // C17 judges panics only, so its environment can be wider than that of C01-C16: members /
+    // inners / upstreams of every operator may greet late (a late-greeting source is conformant).
+    // Exception: the upstream of share (observation O2 in DESIGN.md: the unchanged share panics
+    // when a second sink acts before a late upstream has greeted; outside every quantifier).
+    // CBVERIF_LATE_ALL=1 lifts the exception (experiment only, not used by a registered check).
+    if prop == "C17" && !matches!(topo, Topo::Tree(_)) && (!matches!(topo, Topo::Share(_)) || std::env::var("CBVERIF_LATE_ALL").is_ok()) {
+        allow_late = true;
+    }
     if indep && !matches!(topo, Topo::Share(_) | Topo::ForEach) {
         n_probes = 2;
     }
